@@ -116,6 +116,7 @@ def run(ctx):
             ctx.decide(okp, "C12.cad", mc.ident, loc_of(mc, cb[0].node), "the payload handed to the callback is built from the current samples, iteration and temperature",
                        f"the callback receives {T.show(st)[:160] if st else None}", disc="payload")
 
+    wiring_rule(ctx, repo)
     # default wiring of the callback and the cadence
     from .smcloop import fold_sample
     sfd = fold_sample(repo, resumed=False, final=False)
@@ -300,6 +301,69 @@ def run(ctx):
                    f"before sampling the configuration is only written under {gcfg}", disc="config")
 
 
+def wiring_rule(ctx, repo):
+    """C12.wire: the file and cadence handed to the sampler by sample_posterior are
+    the explicit arguments, else the defaults of the auto-checkpoint context."""
+    A = repo.cls("aspire.aspire:Aspire")
+    sp = A.methods["sample_posterior"]
+    ev = Evaluator(repo, max_depth=0)
+    ev.run(sp, A)
+    me = T.atom(sp.params[0])
+    cp, ce, csc = T.atom("checkpoint_path"), T.atom("checkpoint_every"), T.atom("checkpoint_save_config")
+    D = next((s_ for e in ev.events for a in e.args for s_ in T.subterms(a)
+              if s_ and s_[0] == "f" and s_[1] == "getattr" and len(s_[2]) >= 2 and s_[2][1] == T.K("_checkpoint_defaults")), None)
+    sets = {e.args[1][1]: e for e in ev.events if e.func is sp and e.callee == "method:setdefault" and len(e.args) == 3 and e.args[1][0] == "k"}
+    if D is None or "checkpoint_file_path" not in sets or "checkpoint_every" not in sets:
+        ctx.refute("C12.wire", sp.ident, loc_of(sp), "sample_posterior does not hand checkpoint_file_path / checkpoint_every to the sampler "
+                   "(no setdefault on the sampler keyword arguments, or the auto-checkpoint defaults are never read): no checkpoint is written during the run")
+        return
+
+    def oracle(in_context):
+        def o(c):
+            if c == ("is", cp, T.NONE):
+                return in_context
+            if c == D:
+                return in_context
+            return None
+        return o
+
+    def flat(conds):
+        out = set()
+        for c, pol in conds:
+            while c[0] == "not":
+                c, pol = c[1], not pol
+            if c[0] == "and" and pol:
+                out |= flat([(x, True) for x in c[1]])
+            else:
+                out.add((c, pol))
+        return out
+    for key, explicit, dkey in (("checkpoint_file_path", cp, "path"), ("checkpoint_every", ce, "every")):
+        v = sets[key].args[2]
+        ok = T.resolve(v, oracle(True)) == ("s", D, T.K(dkey)) and T.resolve(v, oracle(False)) == explicit
+        ctx.decide(ok, "C12.wire", sp.ident, loc_of(sp, sets[key].node), f"the sampler's {key} is the explicit argument, else the auto-checkpoint context's '{dkey}'",
+                   f"the sampler's {key} is {T.show(v)[:160]}: inside an auto-checkpoint context the run does not checkpoint to the context's file at its cadence, "
+                   "or an explicit argument is overridden", disc=key)
+    P = sets["checkpoint_file_path"].args[2]
+    fc = flat(sets["checkpoint_file_path"].conds)
+    sub = [c for c, pol in fc if c[0] == "f" and c[1] == "method:issubset" and pol]
+    okg = (("is", P, T.NONE), False) in fc and len(sub) == 1 and len(fc) == 2 and sets["checkpoint_every"].conds == sets["checkpoint_file_path"].conds
+    ctx.decide(okg, "C12.wire", sp.ident, loc_of(sp, sets["checkpoint_file_path"].node), "file and cadence are handed over whenever a checkpoint file is in force and the sampler's sample() accepts them",
+               "checkpoint_file_path / checkpoint_every are handed to the sampler under " + " and ".join(("" if p_ else "not ") + T.show(c_)[:50] for c_, p_ in sorted(fc, key=repr)), disc="guard")
+    files = [e for e in ev.events if e.func is sp and e.callee.startswith("new:") and e.callee.endswith("AspireFile")]
+    run = [e for e in ev.events if e.func is sp and e.callee == "method:sample"]
+    pre = [e for e in files if run and e.seq < run[0].seq]
+    okf = len(pre) == 1 and tuple(pre[0].args[:2]) == (P, T.K("a")) and flat(pre[0].conds) == {(("is", P, T.NONE), False)}
+    ctx.decide(okf, "C12.wire", sp.ident, loc_of(sp, pre[0].node if pre else None), "the file prepared before sampling is the one handed to the sampler, opened for appending whenever a checkpoint file is in force",
+               "the file opened before sampling is not (only) the checkpoint file in force, opened in append mode", disc="file")
+    cfgs = [e for e in ev.events if e.func is sp and e.callee.endswith("Aspire.save_config") and run and e.seq < run[0].seq]
+    okc = False
+    if len(cfgs) == 1:
+        rest = flat(cfgs[0].conds) - {(("is", P, T.NONE), False)}
+        okc = len(rest) == 1 and list(rest)[0][1] is True and T.resolve(list(rest)[0][0], oracle(True)) == ("s", D, T.K("save_config")) and T.resolve(list(rest)[0][0], oracle(False)) == csc
+    ctx.decide(okc, "C12.wire", sp.ident, loc_of(sp, cfgs[0].node if cfgs else None), "before sampling the configuration is written iff saving it is requested (argument, else the context's 'save_config')",
+               "the pre-sampling configuration write is not controlled by checkpoint_save_config / the context's save_config alone", disc="config")
+
+
 _B = "src/aspire/samplers/smc/base.py"
 _SB = "src/aspire/samplers/base.py"
 _U = "src/aspire/utils.py"
@@ -321,6 +385,10 @@ MUTANTS = [
       "self._h5 = AspireFile(file_path, \"a\")\n            self.save_checkpoint_to_hdf(\n                self._h5 and state, self._h5, path=\"checkpoint\", dsetname=\"state\"\n            )", "C12.close"),
 ]
 MUTANTS += [
+    M("context defaults override an explicit path", _A, "if checkpoint_path is None and defaults:\n            checkpoint_path = defaults[\"path\"]", "if checkpoint_path is not None and defaults:\n            checkpoint_path = defaults[\"path\"]", "C12.wire", within="Aspire.sample_posterior"),
+    M("context cadence ignored", _A, "checkpoint_every = defaults[\"every\"]\n            checkpoint_save_config = defaults[\"save_config\"]\n        saved_flow", "checkpoint_save_config = defaults[\"save_config\"]\n        saved_flow", "C12.wire"),
+    M("file path not handed to the sampler", _A, "kwargs.setdefault(\"checkpoint_file_path\", checkpoint_path)\n", "", "C12.wire"),
+    M("handover only for samplers without checkpoint support", _A, "if not {\"checkpoint_file_path\", \"checkpoint_every\"}.issubset(", "if {\"checkpoint_file_path\", \"checkpoint_every\"}.issubset(", "C12.wire"),
     M("cadence guard inverted", _B, "and checkpoint_every > 0\n", "and checkpoint_every <= 0\n", "C12.cad"),
     M("requested cadence overwritten by one", _B, "if checkpoint_callback is not None and checkpoint_every is None:\n            checkpoint_every = 1", "if checkpoint_callback is not None or checkpoint_every is None:\n            checkpoint_every = 1", "C12.default"),
     M("given callback replaced by the default", _B, "if checkpoint_callback is None and checkpoint_every is not None:", "if checkpoint_every is not None:", "C12.default"),
